@@ -12,7 +12,7 @@ meta = dict(seed=sid, property=prop, needs=needs,
             detected_by=detected,
             confirmed=dict(script='tools/confirm_mutant.sh (scratch worktree): demo fails with patch, pinned suite passes with patch, demo passes without',
                            log=log.strip().splitlines()),
-            checks_run='tools/try_patch.sh seeded/%s/patch.diff %s' % (sid, prop))
+            checks_run='/verif/tools/try_patch.sh /verif/seeded/%s/patch.diff %s' % (sid, prop))
 json.dump(meta, open(os.path.join(out, 'meta.json'), 'w'), indent=1)
 subprocess.run(['git', '-C', '/repo', 'worktree', 'remove', '--force', wt])
 print('saved', out)
